@@ -51,7 +51,7 @@ def _rows(X):
             printing = not re.match(r"\w+\.name\s*(\.is_empty\(\)|==|!=)", tail)
             if printing:
                 rows.append(("FN.%s.%d" % (what.replace(".", "_"), k), wrapped, body.count("\n", 0, p) + 1))
-    m = re.search(r"for \(name, arg\) in &func_call\.named_args \{", body)
+    m = re.search(r"for \(name, arg\) in (?:&func_call\.named_args|named_args) \{", body)
     if not m:
         raise ExtractionError("codegen/ast.rs: the loop `for (name, arg) in &func_call.named_args { .. }` is not where the unit expects it")
     toks = code_tokens(body)
@@ -61,6 +61,12 @@ def _rows(X):
     uses = [u.start() for u in re.finditer(r"\bname\b", loop)]
     ok = bool(uses) and all(re.search(r"write_ident_part\(\s*&?\s*$", loop[max(0, u - 40):u]) for u in uses)
     rows.append(("FN.named_arg", ok, body.count("\n", 0, m.start()) + 1))
+    # named_args is a HashMap: its iteration order differs from run to run, so the loop must not iterate it directly (C14: formatting the output again returns it
+    # unchanged) - a syntactic fact about the loop header: it iterates a local that was sorted
+    arm = body[max(0, m.start() - 600):m.start()]
+    direct = "&func_call.named_args" in m.group(0)
+    sorted_first = bool(re.search(r"let mut named_args[^;]*=\s*func_call\.named_args\.iter\(\)\.collect\(\);\s*named_args\.sort", arm)) or bool(re.search(r"\.sorted", m.group(0)))
+    rows.append(("FN.named_arg_order", (not direct) and sorted_first, body.count("\n", 0, m.start()) + 1))
     return rows
 
 
@@ -111,6 +117,8 @@ PROGRAMS = [
     "let f = a `x y`:1 -> a + `x y`\nfrom t\nselect {y = (f `x y`:2 a)}\n",
     "let `let` = (from t)\nfrom `let`\n",
     "from sales\nselect {region, `a$b`, `$x`, `x$`}\n",
+    # several named arguments: the map they are kept in has no order of its own; the formatter's output must not depend on the run
+    "let f = func x a:1 b:2 c:3 d:4 e:5 g:6 -> x\nfrom t\nselect {y = (f g:6 e:5 d:4 c:3 b:2 a:1 z)}\n",
 ]
 
 
